@@ -1,5 +1,6 @@
 """K3 case generator: structure-aware, boundary-heavy op sequences for the broker."""
 from k3_real import MON, ASSETS, PIDS
+from common import hv
 
 TODS = [0, 52199, 52200, 52201, 60000, 70000, 75599, 75600, 75601, 86399]
 
@@ -12,7 +13,7 @@ def gen_price(rng):
         return float(rng.randint(1, 400)) + 0.5      # considerations on .5 ties with odd quantities
     if k < 0.6:
         return float(rng.randint(1, 300))
-    return rng.uniform(0.5, 800)
+    return hv(rng, rng.uniform(0.5, 800), 'pos', 0.3)
 
 
 def gen_quote(rng):
@@ -93,7 +94,7 @@ def gen_case(rng, n_ops=None, invalid_rate=0.15, pf_level=True):
         bad = rng.random() < invalid_rate
         pid = rng.choice(list(pfs)) if pfs and not (bad and rng.random() < 0.3) else rng.choice(['9', '1', '2', '3'])
         if k < 0.05:
-            amt = rng.choice([-5.0, -0.01]) if bad else rng.choice([0.0, 100.0, 1e5, 0.005, 1234.565])
+            amt = rng.choice([-5.0, -0.01]) if bad else hv(rng, rng.choice([0.0, 100.0, 1e5, 0.005, 1234.565]), 'pos')
             ops.append(['subA', amt])
             if amt >= 0:
                 master += amt
@@ -108,7 +109,7 @@ def gen_case(rng, n_ops=None, invalid_rate=0.15, pf_level=True):
             if p2 not in pfs:
                 pfs[p2] = dict(cash=0.0, held={}, pend=[])
         elif k < 0.24:
-            amt = rng.choice([-1.0, master + 0.01, 1e12]) if bad else rng.choice([0.0, 1e3, 5e4, master, master / 3, 0.125])
+            amt = rng.choice([-1.0, master + 0.01, 1e12]) if bad else hv(rng, rng.choice([0.0, 1e3, 5e4, master, master / 3, 0.125]), 'pos')
             ops.append(['subP', pid, float(amt)])
             if pid in pfs and 0 <= amt <= master:
                 master -= amt
@@ -129,7 +130,7 @@ def gen_case(rng, n_ops=None, invalid_rate=0.15, pf_level=True):
             elif cur != 0 and r < 0.45:
                 q = -cur - (1 if cur > 0 else -1) * rng.choice([1, 7, 50])   # flip through zero in one fill
             else:
-                q = rng.choice([1, -1]) * rng.choice([1, 3, 7, 10, 33, 100, 1000])
+                q = hv(rng, rng.choice([1, -1]) * rng.choice([1, 3, 7, 10, 33, 100, 1000]), 'int')
             ops.append(['submit', pid, a, int(q)])
             if pid in pfs and a != 'UUU':
                 pfs[pid]['pend'].append((a, q))
